@@ -87,6 +87,19 @@ pub fn cases(rng: &mut Rng, tier: &str) -> (Vec<Case>, bool) {
         let steps = rng.range(2, 12);
         let mut kinds = std::collections::BTreeSet::new();
         for _ in 0..steps {
+            if rng.chance(1, 6) {
+                // an argument that itself draws a number: the inner call advances first, the outer one sees the new state
+                let (text, outer) = rng.pick(&[("PRINT RND(0*RND(1))", 0.0), ("PRINT RND(RND(1)>2)", 0.0), ("PRINT RND(RND(1)+1)", 1.0), ("PRINT RND(1+0*RND(5))", 1.0)]);
+                ops.push(format!("start {}", hexs(text)));
+                let (_, s1) = oracle_step(state, 1.0);
+                let (v, s2) = oracle_step(s1, outer);
+                state = s2;
+                kinds.insert("nested-rnd");
+                checks.push(format!("reply-is {} ok", ops.len() - 1));
+                ops.push("take".to_string());
+                checks.push(format!("reply-is {} P:{}", ops.len() - 1, hexs(&format!("{}\n", v.unwrap()))));
+                continue;
+            }
             let (text, arg) = match rng.below(12) {
                 0..=2 => ("PRINT RND(1)", 1.0),
                 3 => ("PRINT RND(0)", 0.0),
@@ -124,6 +137,28 @@ pub fn cases(rng: &mut Rng, tier: &str) -> (Vec<Case>, bool) {
             nontrivial: kinds.len() >= 2,
             show: format!("seed {} then {} RND calls", seed, steps),
         });
+    }
+    // the Web front end: a seed handed over while a program is suspended takes effect at once (adapter vs a core in lock step)
+    for _ in 0..(n_sessions / 40).max(4) {
+        let (s1, s2) = (rng.next() % 100000, rng.next() % 100000);
+        let mut ops = vec!["wnew".to_string(), format!("wseed {}", s1), "wsubmit".to_string()];
+        for l in ["10 PRINT RND(1)", "20 INPUT A", "30 PRINT RND(1)", "40 PRINT RND(0)", "50 PRINT RND(1)"] {
+            ops.push(format!("wsubmit {}", hexs(l)));
+        }
+        ops.push(format!("wsubmit {}", hexs("RUN")));
+        for _ in 0..rng.range(2, 4) {
+            ops.push("wtick".to_string());
+        }
+        ops.push(format!("wseed {}", s2));
+        ops.push(format!("wsubmit {}", hexs("5")));
+        for _ in 0..8 {
+            ops.push("wtick".to_string());
+            if rng.chance(1, 4) {
+                ops.push(format!("wseed {}", rng.next() % 1000));
+            }
+        }
+        let checks = (0..ops.len()).filter(|i| ops[*i].starts_with("wsubmit") || ops[*i] == "wtick").map(|i| format!("web-ok {}", i)).collect();
+        cases.push(Case { ops, checks, tag: "web-reseed-while-suspended".into(), nontrivial: true, show: format!("seed {} , reseed {} at the INPUT", s1, s2) });
     }
     // the sequence a PROGRAM sees: seed, optional earlier calls at the prompt, then RUN of a program that calls RND
     for _ in 0..(n_sessions / 10).max(10) {
